@@ -30,6 +30,22 @@ Theorem C07_constants_keep_no_interference :
 Proof. exact (fun C call Rd Wr H Kc HK => constants_keep_no_interference C call Rd Wr H Kc HK). Qed.
 Print Assumptions C07_constants_keep_no_interference.
 
+(* ---- process state (cwd, environment, ...) that calls read AND write, but that every call restores on every path (normal or
+        raising outcome): history independence still holds, for histories of any length ---- *)
+Theorem C07_history_restored_cells :
+  forall (C V call res : Type) (sem : call -> gworld C V -> res * gworld C V) (Rd Wr : call -> list C),
+    reads_only C V call res sem Rd Wr -> writes_only C V call res sem Wr ->
+    (forall x y c, In c (Rd x) -> ~ In c (Wr y) \/ (forall z w, snd (sem z w) c = w c)) ->
+    forall hist x w0, fst (sem x (run C V call res sem hist w0)) = fst (sem x w0).
+Proof. exact history_independent_restored. Qed.
+Print Assumptions C07_history_restored_cells.
+
+Theorem C07_restored_cell_is_constant :
+  forall (C V call res : Type) (sem : call -> gworld C V -> res * gworld C V) (c : C),
+    restores C V call res sem c -> forall hist w0, run C V call res sem hist w0 c = w0 c.
+Proof. exact restored_cell_constant. Qed.
+Print Assumptions C07_restored_cell_is_constant.
+
 (* ---- a keyed memo whose values are a function of the key and of constants (GeneratedsSuperSuper.__all_members_)
         is transparent: any history of lookups returns f on each key ---- *)
 Theorem C07_memo_transparent :
@@ -103,13 +119,13 @@ Proof. exact each_dict_matters. Qed.
 Print Assumptions C07_each_dict_matters.
 
 (* ==== INSTANCE ==== (everything below is about the table regenerated from the working tree) *)
-From Run Require Import Gen_C07 Inst_C07_defaults Inst_C07_fields Inst_C07_globals Inst_C07_classmeta.
+From Run Require Import Gen_C07 Inst_C07_defaults Inst_C07_fields Inst_C07_globals Inst_C07_classmeta Inst_C07_process.
 
 Theorem C07_state_ok : state_ok Gen_C07.table = true.
 Proof.
   exact (proj2 (state_ok_split Gen_C07.table)
                (conj Inst_C07_defaults.defaults_ok (conj Inst_C07_fields.fields_ok
-                  (conj Inst_C07_globals.globals_ok Inst_C07_classmeta.classmeta_ok)))).
+                  (conj Inst_C07_globals.globals_ok (conj Inst_C07_classmeta.classmeta_ok Inst_C07_process.process_state_ok))))).
 Qed.
 Print Assumptions C07_state_ok.
 
@@ -147,3 +163,12 @@ Theorem C07_class_metadata_is_constant :
   forall m, In m (st_classmeta Gen_C07.table) -> cm_mutated m = false /\ cm_aliases m = false.
 Proof. exact (proj1 (classmeta_ok_spec Gen_C07.table) Inst_C07_classmeta.classmeta_ok). Qed.
 Print Assumptions C07_class_metadata_is_constant.
+
+(* every mutation of process-global state inside a function of the analysed modules is undone on every path, or is one of the
+   two recorded sites (warnings filters in NeuroMLLoader.__nml2_doc / _read_neuroml2: known findings; logging.basicConfig in
+   NeuroMLHdf5Loader.__nml2_doc); module-level statements are import-time constants *)
+Theorem C07_process_state_is_restored :
+  forall s, In s (st_process Gen_C07.table) ->
+    ps_import_time s = true \/ ps_restored s = true \/ known_proc_site s = true.
+Proof. exact (proj1 (process_ok_spec Gen_C07.table) Inst_C07_process.process_state_ok). Qed.
+Print Assumptions C07_process_state_is_restored.
